@@ -215,6 +215,9 @@ def run(ctx):
         R.ob('C08.yield', ('Requests<%s>::poll_next' % chain_name(ch), 'a request read from the channel is yielded'), not lost and not r['viol'],
              'whenever the channel\'s stream hands a tracked request to the request stream in an activation, that activation returns it (it is never dropped because a response was written in the same iteration)',
              sorted({s_ for v in r['viol'].values() for s_ in v}) or [rp.loc(rp.d)], 'exits after reading a request: %s %s' % (lost, list(r['viol'])))
+    # a response is transmitted only for a request that is still tracked — at most one per request, none after a cancel or an expiry
+    from .server_common import tracked_gate
+    tracked_gate(ctx, 'C08.tracked', S)
 
 
 class YieldAut:
